@@ -1517,7 +1517,18 @@ func (c *FnCtx) unbox(st *State, x VIface, t types.Type, ok string) Val {
 	if b, found := c.eng.boxed[x.Pay]; found {
 		return b
 	}
-	return c.freshVal(st, t, "unboxed")
+	// an opaque composite behind an interface value: one symbolic value per (payload term, type)
+	// and function, so that the code and the contract (unbox(e, "T")) speak about the same value
+	key := x.Pay + "|" + types.TypeString(t, nil)
+	if c.unboxed == nil {
+		c.unboxed = map[string]Val{}
+	}
+	if v, found := c.unboxed[key]; found {
+		return v
+	}
+	v := c.freshVal(st, t, "unboxed")
+	c.unboxed[key] = v
+	return v
 }
 
 func (c *FnCtx) execLookup(st *State, in *ssa.Lookup) Val {
